@@ -17,6 +17,7 @@ use std::path::{Path, PathBuf};
 pub fn child(_mode: &str) {}
 
 // =========================================================================== independent reader (M)
+#[allow(dead_code)]
 pub(crate) mod reader {
     use crate::fw::sha1_bytes;
 
@@ -965,7 +966,6 @@ const NASTY: &[u8] = b"ab01 \"'\\\t\x01\x7f\xc3\xa9\xff*?[]{}~#!$&()+,;=@^`|<>:%
 pub(crate) struct PathGen {
     bases: Vec<Vec<u8>>,
     nasty: bool,
-    long_names: bool,
 }
 impl PathGen {
     pub fn new(r: &mut Rng) -> PathGen {
@@ -977,7 +977,7 @@ impl PathGen {
             let len = if long_names && r.chance(1, 2) { 100 + r.usize(140) } else { 1 + r.usize(10) };
             bases.push(r.bytes_from(len, SIMPLE));
         }
-        PathGen { bases, nasty, long_names }
+        PathGen { bases, nasty }
     }
     pub fn component(&self, r: &mut Rng) -> Vec<u8> {
         loop {
